@@ -58,6 +58,11 @@ Fixpoint dict_set (h : headers) (k v : str) : headers :=
   | (k', v') :: r => if str_eqb k' k then (k', v) :: r else (k', v') :: dict_set r k v
   end.
 
+(* do_request's test for a caller-supplied id: any(name.lower() == KEY for name in headers), KEY = hdr_test_key
+   (str.lower() on ASCII names) *)
+Definition supplied_test (h : headers) : bool :=
+  existsb (fun kv => str_eqb (map lower (fst kv)) hdr_test_key) h.
+
 (* the header the property observes: 'X-request-id' of the urllib Request *)
 Definition obs_key : str := [88;45;114;101;113;117;101;115;116;45;105;100].
 
@@ -129,11 +134,11 @@ Definition step (cp : str) (prog : list instr) (st : state) (t : tid) : state :=
         let th_pass := mkT [IPass] (hdrs th) (regs th) (todo th) (out th) in
         match i with
         | ICheck =>
-            (* if self._cur_req_id is not None: if KEY not in headers: ... *)
+            (* if self._cur_req_id is not None: if not any(name.lower() == KEY for name in headers): ... *)
             match ctr st with
             | None => mkS (lock st) (ctr st) (put th_pass)
             | Some _ =>
-                if key_in hdr_test_key (hdrs th)
+                if supplied_test (hdrs th)
                 then mkS (lock st) (ctr st) (put th_pass)
                 else mkS (lock st) (ctr st) (put th_c)
             end
